@@ -1,4 +1,4 @@
-import IoraModel.Lemmas.AssetsWalk
+import IoraModel.Lemmas.AssetsFuel
 /-!
 C20: from the walk lemmas to the lookups — what `status`, `canonical`, `readFile` return on canonical absolute paths,
 the open-time containment lemma (leaf swap), and the analysis of `weakly_canonical`.
@@ -261,7 +261,7 @@ theorem isRegularFile_canon (fs : Fs) (L : Loc) (e : Entry) (hL : LocOK L) (hg :
         | zero => simp [walk] at hf'
         | succ f'' => simp [walk_succ, walkStep] at hf'
 
-/-! ### resolve, check, open: the common core of the three lookups -/
+/-! ### helpers for the lookups -/
 
 theorem joinSlash_snoc_append (ns : List Bytes) (last sfx : Bytes) :
     joinSlash (ns ++ [last]) ++ sfx = joinSlash (ns ++ [last ++ sfx]) := by
@@ -285,53 +285,6 @@ theorem gz_plain (last : Name) (h : Plain last ∧ (0 : UInt8) ∉ last) :
     have := congrArg List.length e
     simp [Gen.Assets.gzSuffix, dotdot] at this
   · intro hm; simp [Gen.Assets.gzSuffix] at hm; exact h0 hm
-
-theorem resolve_open (hT : WcMissingNoFile) (fsR fsO : Fs) (pre base : Bytes) (bn : List Name) (name resolved : Bytes)
-    (hpa : isAbs pre = true) (hp0 : (0 : UInt8) ∉ pre) (hpd : dotdot ∉ comps pre) (hpne : pre ≠ [])
-    (hb : base = renderAbs bn) (hbn : ∀ n ∈ bn, Plain n)
-    (hn : lexicallyRejected name = false)
-    (hw : weaklyCanonical fsR (pathAppend pre name) = .ok resolved)
-    (hc : isContained base resolved = true) (hr : isRegularFile fsR resolved = true) (hd : DirsPreserved fsR fsO) :
-    ∃ last up d0, resolved = renderLoc (last :: up) ∧ LocOK (last :: up) ∧
-      kwalk fsR true (pathAppend pre name) = .ok (last :: up, .file d0) ∧ fsR.get (last :: up) = some (.file d0) ∧
-      bn <+: (last :: up).reverse ∧
-      (∀ d, readFile fsO resolved = some d → fsO.get (last :: up) = some (.file d)) ∧
-      (∀ g, readFile fsO (resolved ++ Gen.Assets.gzSuffix) = some g →
-        fsO.get ((last ++ Gen.Assets.gzSuffix) :: up) = some (.file g)) ∧
-      LocOK ((last ++ Gen.Assets.gzSuffix) :: up) := by
-  have ha := isAbs_candidate pre name hpne hn hpa
-  have h0 := no_nul_candidate pre name hpne hn hp0
-  have hdd := no_dotdot_candidate pre name hpne hn hpd
-  rcases wc_cases fsR _ _ hw with ⟨L, e, hk, hres⟩ | hnf
-  · obtain ⟨hg, hL, hnl, _⟩ := kwalk_abs_ok fsR true _ h0 ha L e hk
-    subst hres
-    obtain ⟨d0, he⟩ := isRegularFile_canon fsR L e hL hg (hnl rfl) hr
-    subst he
-    cases L with
-    | nil => simp [Fs.get] at hg
-    | cons last up =>
-      have hpre : bn <+: (last :: up).reverse := by
-        rw [hb, renderLoc_eq] at hc
-        exact (isContained_canonical bn _ hbn (fun n hn' => (hL n (by simp at hn'; simp; exact hn'.symm)).1)).mp hc
-      have hparR : fsR.get up = some .dir := get_parent hg
-      have hparO : fsO.get up = some .dir := hd _ hparR
-      have hgzL : LocOK ((last ++ Gen.Assets.gzSuffix) :: up) := by
-        intro n hn'
-        simp at hn'
-        rcases hn' with hn' | hn'
-        · subst hn'; exact gz_plain last (hL last (by simp))
-        · exact hL n (by simp [hn'])
-      refine ⟨last, up, d0, rfl, hL, hk, hg, hpre, ?_, ?_, hgzL⟩
-      · intro d hrd
-        exact readFile_at_loc fsO _ d hL (by simpa using hparO) hrd
-      · intro g hrg
-        have : renderLoc (last :: up) ++ Gen.Assets.gzSuffix = renderLoc ((last ++ Gen.Assets.gzSuffix) :: up) := by
-          simp only [renderLoc, List.reverse_cons, List.cons_append, joinSlash_snoc_append]
-        rw [this] at hrg
-        exact readFile_at_loc fsO _ g hgzL (by simpa using hparO) hrg
-  · exfalso
-    obtain ⟨L, d, hk⟩ := (isRegularFile_iff fsR resolved).mp hr
-    exact hT fsR _ _ ha h0 hdd hnf hw true L d hk
 
 /-! ### the filesystem-mode lookups -/
 
@@ -388,218 +341,8 @@ theorem lookup_mem {β} (l : List (Bytes × β)) (k : Bytes) (v : β) (h : l.loo
     · exact List.mem_cons_of_mem _ (ih h)
 
 /-- the result of `resolve_open`, packaged for a root that is also the candidate prefix (filesystem mode) -/
-theorem resolve_open_inside (hT : WcMissingNoFile) (fsR fsO : Fs) (root : Bytes) (bn : List Name) (hroot : RootOK root bn)
-    (name resolved : Bytes) (hn : lexicallyRejected name = false)
-    (hw : weaklyCanonical fsR (pathAppend root name) = .ok resolved)
-    (hc : isContained root resolved = true) (hr : isRegularFile fsR resolved = true) (hd : DirsPreserved fsR fsO) :
-    (∃ d0, Inside fsR bn d0) ∧ (∀ d, readFile fsO resolved = some d → Inside fsO bn d) ∧
-      (∀ g, readFile fsO (resolved ++ Gen.Assets.gzSuffix) = some g → Inside fsO bn g) := by
-  obtain ⟨last, up, d0, hres, hL, hk, hg, hpre, hrd, hrg, hgzL⟩ :=
-    resolve_open hT fsR fsO root root bn name resolved hroot.abs hroot.no_nul hroot.no_dotdot hroot.ne hroot.eq
-      (fun n hn' => (hroot.plain n hn').1) hn hw hc hr hd
-  have hstrict := strict_of_candidate fsR root bn hroot name hn last up d0 hk
-  refine ⟨⟨d0, last :: up, hg, hpre, hstrict⟩, ?_, ?_⟩
-  · intro d hd'
-    exact ⟨last :: up, hrd d hd', hpre, hstrict⟩
-  · intro g hg'
-    refine ⟨(last ++ Gen.Assets.gzSuffix) :: up, hrg g hg', ?_, ?_⟩
-    · have : bn <+: up.reverse := prefix_of_prefix_snoc_ne bn up.reverse last (by simpa using hpre) (by simpa using hstrict)
-      simp only [List.reverse_cons]
-      exact List.IsPrefix.trans this (List.prefix_append _ _)
-    · have hp : bn <+: up.reverse := prefix_of_prefix_snoc_ne bn up.reverse last (by simpa using hpre) (by simpa using hstrict)
-      intro e
-      have h1 := hp.length_le
-      have h2 := congrArg List.length e
-      simp at h1 h2
-      omega
-
-/-- what counts as acceptable bytes for a cache entry / a blob -/
 def EntryGood (P : Bytes → Prop) (e : CacheEntry) : Prop := P e.bytes ∧ ∀ g, e.gz = some g → P g
 def BlobGood (P : Bytes → Prop) (b : Blob) : Prop := P b.bytes ∧ ∀ g, b.gz = some g → P g
 
-theorem buildEntry_good (P : Bytes → Prop) (fs : Fs) (resolved : Bytes) (e : CacheEntry)
-    (h1 : ∀ d, readFile fs resolved = some d → P d)
-    (h2 : ∀ g, readFile fs (resolved ++ Gen.Assets.gzSuffix) = some g → P g)
-    (h : buildEntry fs resolved = some e) : EntryGood P e := by
-  unfold buildEntry at h
-  split at h
-  · cases h
-  · rename_i b hb
-    injection h with h
-    subst h
-    refine ⟨h1 b hb, ?_⟩
-    intro g hg
-    simp only at hg
-    split at hg
-    · exact h2 g hg
-    · cases hg
-
-/-- **One filesystem-mode static lookup.** Whatever predicate `P` holds of every content that is inside the root at open
-time and of everything already cached, holds of the bytes (and gzip bytes) served, and of the cache afterwards; and the
-name was re-validated against the CURRENT file system (it names a regular file inside the root) — also on a cache hit. -/
-theorem getStaticFilesystemAt_good (hT : WcMissingNoFile) (P : Bytes → Prop) (fsR fsO : Fs) (st : FsState) (path : Bytes)
-    (bn : List Name) (hroot : RootOK st.staticsRoot bn) (hd : DirsPreserved fsR fsO)
-    (hn : lexicallyRejected path = false) (hP : ∀ d, Inside fsO bn d → P d)
-    (hcache : ∀ k e, (k, e) ∈ st.staticCache → EntryGood P e) :
-    (∀ b, (getStaticFilesystemAt fsR fsO st path).1 = .found b → BlobGood P b ∧ ∃ d0, Inside fsR bn d0) ∧
-    (∀ k e, (k, e) ∈ (getStaticFilesystemAt fsR fsO st path).2.staticCache → EntryGood P e) ∧
-    (getStaticFilesystemAt fsR fsO st path).2.staticsRoot = st.staticsRoot ∧
-    (getStaticFilesystemAt fsR fsO st path).2.templatesRoot = st.templatesRoot ∧
-    (getStaticFilesystemAt fsR fsO st path).2.templateCache = st.templateCache := by
-  unfold getStaticFilesystemAt
-  simp only
-  split
-  · exact ⟨(by intro b h; cases h), hcache, rfl, rfl, rfl⟩
-  rename_i resolved hw
-  split
-  · exact ⟨(by intro b h; cases h), hcache, rfl, rfl, rfl⟩
-  rename_i hc
-  split
-  · exact ⟨(by intro b h; cases h), hcache, rfl, rfl, rfl⟩
-  rename_i hr
-  simp only [Bool.not_eq_true] at hc hr
-  simp only [Bool.not_eq_eq_eq_not] at hc hr
-  obtain ⟨hcur, h1, h2⟩ := resolve_open_inside hT fsR fsO st.staticsRoot bn hroot path resolved hn hw hc hr hd
-  have hfresh : ∀ e, buildEntry fsO resolved = some e → EntryGood P e := fun e he =>
-    buildEntry_good P fsO resolved e (fun d h => hP d (h1 d h)) (fun g h => hP g (h2 g h)) he
-  split
-  · split
-    · exact ⟨(by intro b h; cases h), hcache, rfl, rfl, rfl⟩
-    · rename_i e he
-      refine ⟨?_, hcache, rfl, rfl, rfl⟩
-      intro b h; injection h with h; subst h
-      exact ⟨hfresh e he, hcur⟩
-  · split
-    · rename_i e he
-      refine ⟨?_, hcache, rfl, rfl, rfl⟩
-      intro b h; injection h with h; subst h
-      exact ⟨hcache _ _ (lookup_mem _ _ _ he), hcur⟩
-    · split
-      · exact ⟨(by intro b h; cases h), hcache, rfl, rfl, rfl⟩
-      · rename_i e he
-        refine ⟨?_, ?_, rfl, rfl, rfl⟩
-        · intro b h; injection h with h; subst h
-          exact ⟨hfresh e he, hcur⟩
-        · intro k e' hm
-          simp at hm
-          rcases hm with ⟨rfl, rfl⟩ | hm
-          · exact hfresh _ he
-          · exact hcache _ _ hm
-
-/-- **One filesystem-mode template lookup** (same shape as the static one; the base is the templates root). -/
-theorem getTemplateFilesystemAt_good (hT : WcMissingNoFile) (P : Bytes → Prop) (fsR fsO : Fs) (st : FsState) (name : Bytes)
-    (bn : List Name) (hroot : RootOK st.templatesRoot bn) (hd : DirsPreserved fsR fsO)
-    (hn : lexicallyRejected name = false) (hP : ∀ d, Inside fsO bn d → P d)
-    (hcache : ∀ k d, (k, d) ∈ st.templateCache → P d) :
-    (∀ d, (getTemplateFilesystemAt fsR fsO st name).1 = some d → P d ∧ ∃ d0, Inside fsR bn d0) ∧
-    (∀ k d, (k, d) ∈ (getTemplateFilesystemAt fsR fsO st name).2.templateCache → P d) ∧
-    (getTemplateFilesystemAt fsR fsO st name).2.staticsRoot = st.staticsRoot ∧
-    (getTemplateFilesystemAt fsR fsO st name).2.templatesRoot = st.templatesRoot ∧
-    (getTemplateFilesystemAt fsR fsO st name).2.staticCache = st.staticCache := by
-  unfold getTemplateFilesystemAt
-  simp only
-  split
-  · exact ⟨(by intro b h; cases h), hcache, rfl, rfl, rfl⟩
-  rename_i resolved hw
-  split
-  · exact ⟨(by intro b h; cases h), hcache, rfl, rfl, rfl⟩
-  rename_i hc
-  split
-  · exact ⟨(by intro b h; cases h), hcache, rfl, rfl, rfl⟩
-  rename_i hr
-  simp only [Bool.not_eq_true] at hc hr
-  simp only [Bool.not_eq_eq_eq_not] at hc hr
-  obtain ⟨hcur, h1, _⟩ := resolve_open_inside hT fsR fsO st.templatesRoot bn hroot name resolved hn hw hc hr hd
-  split
-  · rename_i d he
-    refine ⟨?_, hcache, rfl, rfl, rfl⟩
-    intro b h; injection h with h; subst h
-    exact ⟨hcache _ _ (lookup_mem _ _ _ he), hcur⟩
-  · split
-    · exact ⟨(by intro b h; cases h), hcache, rfl, rfl, rfl⟩
-    · rename_i d he
-      refine ⟨?_, ?_, rfl, rfl, rfl⟩
-      · intro b h; injection h with h; subst h
-        exact ⟨hP _ (h1 _ he), hcur⟩
-      · intro k d' hm
-        simp at hm
-        rcases hm with ⟨rfl, rfl⟩ | hm
-        · exact hP _ (h1 _ he)
-        · exact hcache _ _ hm
-
-/-! ### embedded mode -/
-
-/-- **Embedded mode, static lookup.** Bytes come from the compile-time registry entry of exactly this path, or — for a path of the
-externalised set — from a regular file strictly inside EXTERNAL_DIR (here: an absolute, NUL-free, `..`-free EXTERNAL_DIR that
-`weakly_canonical` resolves to the canonical directory `bn`, which is a directory at open time). -/
-theorem getStaticEmbeddedAt_good (hT : WcMissingNoFile) (fsR fsO : Fs) (r : Registry) (path : Bytes) (b : Blob)
-    (hn : lexicallyRejected path = false) (hd : DirsPreserved fsR fsO)
-    (h : getStaticEmbeddedAt fsR fsO r path = .found b) :
-    (∃ a ∈ r.statics, a.path = path ∧ b.bytes = a.bytes ∧ b.gz = a.gz) ∨
-    (isExternalPath r path = true ∧
-      ∀ bn, isAbs r.externalDir = true → (0 : UInt8) ∉ r.externalDir → dotdot ∉ comps r.externalDir →
-        weaklyCanonical fsR r.externalDir = .ok (renderAbs bn) → (∀ n ∈ bn, Plain n) →
-        fsO.get bn.reverse = some .dir → BlobGood (Inside fsO bn) b) := by
-  unfold getStaticEmbeddedAt at h
-  split at h
-  · rename_i a ha
-    left
-    injection h with h; subst h
-    unfold findStatic at ha
-    split at ha
-    · rename_i a' rest hdw
-      split at ha
-      · rename_i hpath
-        injection ha with ha; subst ha
-        refine ⟨a', ?_, hpath, rfl, rfl⟩
-        have : a' ∈ r.statics.dropWhile (fun a => bytesLt a.path path) := by rw [hdw]; simp
-        exact (List.dropWhile_sublist _).subset this
-      · cases ha
-    · cases ha
-  · right
-    split at h
-    · rename_i hext
-      simp only [Bool.and_eq_true, Bool.not_eq_true', List.isEmpty_eq_false_iff] at hext
-      refine ⟨hext.2, ?_⟩
-      intro bn hea he0 hedd hbase hbn hdir
-      rw [hbase] at h
-      simp only at h
-      split at h
-      · cases h
-      rename_i resolved hw
-      split at h
-      · cases h
-      rename_i hc
-      split at h
-      · cases h
-      rename_i hr
-      simp only [Bool.not_eq_true] at hc hr
-      simp only [Bool.not_eq_eq_eq_not] at hc hr
-      split at h
-      · cases h
-      rename_i e he
-      injection h with h; subst h
-      obtain ⟨last, up, d0, hres, hL, hk, hg, hpre, hrd, hrg, hgzL⟩ :=
-        resolve_open hT fsR fsO r.externalDir (renderAbs bn) bn path resolved hea he0 hedd hext.1 rfl hbn hn hw hc hr hd
-      have hstrict : ∀ (L : Loc) (d : Bytes), fsO.get L = some (.file d) → L.reverse ≠ bn := by
-        intro L d hL' e'
-        rw [← e', List.reverse_reverse, hL'] at hdir
-        cases hdir
-      have hgood : EntryGood (Inside fsO bn) e := by
-        apply buildEntry_good (Inside fsO bn) fsO resolved e _ _ he
-        · intro d hd'
-          exact ⟨_, hrd d hd', hpre, hstrict _ _ (hrd d hd')⟩
-        · intro g hg'
-          have hs := hstrict _ _ (hrd e.bytes (by
-            unfold buildEntry at he
-            split at he
-            · cases he
-            · rename_i b' hb'; injection he with he; subst he; exact hb'))
-          have hp : bn <+: up.reverse := prefix_of_prefix_snoc_ne bn up.reverse last (by simpa using hpre) (by simpa using hs)
-          refine ⟨_, hrg g hg', ?_, hstrict _ _ (hrg g hg')⟩
-          simp only [List.reverse_cons]
-          exact List.IsPrefix.trans hp (List.prefix_append _ _)
-      exact hgood
-    · cases h
 
 end Iora.Assets
